@@ -70,6 +70,24 @@ func runC11(c *Ctx) {
 	c.rule("C11.V2", "the backlog handed to a new subscriber ends where the live events begin: "+backlogBoundDoc, func() { c.backlogBound() })
 
 	c.rule("C11.P1", eventsUnlockedDoc, func() { c.eventsUnlocked() })
+	c.rule("C11.V3", "the handler never waits for a caller that has gone: NewSubscription stops listening for the registration's answer once the manager's quit channel is closed, and the handler answers with a plain send; the answer channel of every registration is therefore made with room for that one answer (capacity 1) - an unbuffered one parks the handler for ever, Stop never returns and no subscriber's channel is closed", func() {
+		fn := c.fn("(*blockntfns.SubscriptionManager).NewSubscription")
+		ec := c.field("blockntfns", "newSubscription", "errChan")
+		sts := find(fn, storeToField(ec))
+		okCap := len(sts) >= 1
+		for _, st := range sts {
+			mk, isMk := ir.Strip(st.(*ssa.Store).Val).(*ssa.MakeChan)
+			if !isMk {
+				okCap = false
+				continue
+			}
+			if k, isC := ir.ConstInt(mk.Size); !isC || k < 1 {
+				okCap = false
+			}
+		}
+		c.verdict(okCap, c.nm(fn)+" | errChan is made with capacity >= 1", c.P.Pos(fn.Pos()), "make(chan error, 1)", "the registration's answer channel has no room for the answer: the handler blocks on it when the caller has already left", c.ats(sts)...)
+	})
+
 	c.rule("C11.R1", registryOwnerDoc, func() { c.registryOwner() })
 
 	c.rule("C11.O1", backlogDoc, func() { c.backlogThenRegister() })
